@@ -43,23 +43,29 @@ type input struct {
 	// QuietUntil: no crash clones before this op index (the > 1024-row script: the
 	// interesting window is the paged discard, earlier images would be huge).
 	QuietUntil int `json:"quiet_until,omitempty"`
+	// Dense: during op QuietUntil (one truncation call over > 1024 rows) a power-loss
+	// and a process-kill clone are taken at EVERY file-system write event: a call the
+	// model commits in one batch must never show a store between before and after.
+	Dense bool `json:"dense,omitempty"`
 }
 
 func gen(r *rand.Rand, tier string, i int) input {
 	p := msgh.Profile{MinOps: 6, MaxOps: 22, Collide: 0.1, MutWeight: 88, BatchRate: 0.15, SaneCheckpoints: true,
-		DiscardRate: 0.07, BigDiscard: 0.03}
+		DiscardRate: 0.07, BigDiscard: 0.03, BigTrunc: 0.04}
 	budget := 14
 	if tier == "thorough" {
 		p.MaxOps = 50
 		budget = 40
 		p.BigDiscard = 0.01
+		p.BigTrunc = 0.015
 	}
 	h := msgh.GenHistory(r, p)
 	in := input{Ops: h.Ops, CrashSeed: r.Uint64(), Budget: budget}
 	if len(h.Ops) > 0 && len(h.Ops[0].Recs) >= 300 {
 		for i, op := range h.Ops {
-			if op.K == "discard" {
+			if op.K == "discard" || op.K == "ctrunc" || op.K == "trunc" {
 				in.QuietUntil = i
+				in.Dense = op.K != "discard"
 				break
 			}
 		}
@@ -84,6 +90,8 @@ type recorder struct {
 	done     atomic.Uint64
 	inflight atomic.Bool
 	budget   int
+	dense    atomic.Bool
+	denseN   int
 	events   int
 	snaps    []snap
 	kinds    map[string]int
@@ -111,6 +119,12 @@ func (rc *recorder) hook(op errorfs.Op) error {
 	defer rc.mu.Unlock()
 	rc.events++
 	rc.kinds[fmt.Sprintf("kind%d", int(op.Kind))]++
+	if rc.dense.Load() && rc.denseN < 120 {
+		rc.denseN++
+		rc.take(0)
+		rc.take(100)
+		return nil
+	}
 	if rc.budget > 0 && rc.rng.IntN(4) == 0 {
 		rc.budget--
 		rc.take([]int{0, 0, 50, 100}[rc.rng.IntN(4)])
@@ -158,8 +172,10 @@ func run(in input) vh.Result {
 			rc.armed.Store(true)
 		}
 		rc.inflight.Store(true)
+		rc.dense.Store(in.Dense && i == in.QuietUntil)
 		out, dumps := e.Exec(op)
 		rc.mu.Lock()
+		rc.dense.Store(false)
 		rc.done.Add(1)
 		rc.inflight.Store(false)
 		if rc.armed.Load() && (msgh.IsMutation(op.K) || op.K == "reopen") {
@@ -258,6 +274,8 @@ func discardClass(in input, polls int) string {
 		}
 	}
 	switch {
+	case n == 0 && in.Dense:
+		return ",bigtrunc"
 	case n == 0:
 		return ""
 	case rows >= 300:
